@@ -199,8 +199,8 @@ func oracleC08(p *sim.Plan, out *sim.Outcome) []sim.Violation {
 		var evs []ev
 		endSeen := map[int]bool{}
 		connackT := map[int]time.Duration{}
-		discCode := map[int]int{}      // conn -> DISCONNECT reason code sent (-1 none)
-		discExp := map[int]*uint32{}   // conn -> expiry carried by DISCONNECT
+		discCode := map[int]int{}    // conn -> DISCONNECT reason code sent (-1 none)
+		discExp := map[int]*uint32{} // conn -> expiry carried by DISCONNECT
 		for _, r := range h.Recs {
 			if r.C == vi {
 				switch {
